@@ -444,12 +444,13 @@ def run(ctx: Ctx) -> None:
                             "nothing is stored for it and the pipeline's signature ignores its code (no error names the module)"], "untracked-nested",
                             what="a nested keep that the analysis did not register is evaluated untracked instead of refused")
     rep.floor("C14.R14", n14, 1)
-    rep.rule("C14.R17", "every reachable tracked variable of an accepted module influences the signature, however it is referred to: the variable visitor handles attribute "
-                        "references (a variable read through its module)")
-    attribute_refs_tracked(ctx, "C14.R17")
-    rep.rule("C14.R18", "every reachable function of an accepted module influences the signature: the class inspectors follow the base classes")
-    n18 = base_classes_tracked(ctx, "C14.R18")
-    rep.floor("C14.R18", n18, 1)
+    if rep.prop == "C14":
+        rep.rule("C14.R17", "every reachable tracked variable of an accepted module influences the signature, however it is referred to: the variable visitor handles attribute "
+                            "references (a variable read through its module)")
+        attribute_refs_tracked(ctx, "C14.R17")
+        rep.rule("C14.R18", "every reachable function of an accepted module influences the signature: the class inspectors follow the base classes")
+        n18 = base_classes_tracked(ctx, "C14.R18")
+        rep.floor("C14.R18", n18, 1)
     from .common import refusal_live
     rep.rule("C14.R15", "a callable of a non-accepted module handed to dds.keep / dds.eval is refused whether it is a function or a class: in both entry functions of the analysis "
                         "the resolution of the call tree's paths (the step that raises 'module not accepted') is live code")
